@@ -292,7 +292,10 @@ pub fn verdict_is_backed(prob: &Prob, eff: &Effective, st: &DefaultSettings<f64>
             let bk: Vec<f64> = (0..prob.m).map(|i| if eff.keep[i] { eff.b_capped[i] } else { 0.0 }).collect();
             let bz = dot_t(&bk, &zk).v;
             let (atz, _) = mul_t(&prob.a, &zk);
-            bz < 0.0 && norm2(&atz) <= 1e-4 * bz.abs() * 1.0f64.max(norm2(&zk))
+            // a certificate whose b'z is at rounding level relative to |b||z| certifies nothing
+            bz < 0.0
+                && bz.abs() >= 1e-6 * norm2(&bk) * norm2(&zk)
+                && norm2(&atz) <= 1e-4 * bz.abs() * 1.0f64.max(norm2(&zk))
         }
         SolverStatus::DualInfeasible => {
             let qx = dot_t(&prob.q, &s.x).v;
@@ -300,7 +303,10 @@ pub fn verdict_is_backed(prob: &Prob, eff: &Effective, st: &DefaultSettings<f64>
             let (ax, _) = mul(&prob.a, &s.x);
             let axs: Vec<f64> = (0..prob.m).map(|i| if eff.keep[i] { ax[i] + s.s[i] } else { 0.0 }).collect();
             let lim = 1e-4 * qx.abs() * 1.0f64.max(norm2(&s.x));
-            qx < 0.0 && norm2(&px) <= lim && norm2(&axs) <= lim
+            qx < 0.0
+                && qx.abs() >= 1e-6 * norm2(&prob.q) * norm2(&s.x)
+                && norm2(&px) <= lim
+                && norm2(&axs) <= lim
         }
         _ => false,
     }
@@ -720,12 +726,15 @@ pub fn run(tier: Tier) -> RunOutcome {
                 if infinite_b {
                     probe("c08_infinite_b_after_update");
                 }
-                let both_numerical_error = snap.status == SolverStatus::NumericalError
-                    && fsnap.status == SolverStatus::NumericalError;
+                let failed = |s: SolverStatus| {
+                    matches!(s, SolverStatus::NumericalError | SolverStatus::InsufficientProgress)
+                };
+                let both_numerical_error = failed(snap.status) && failed(fsnap.status);
                 if both_numerical_error {
-                    // the arithmetic broke down in both; the iterate returned then depends on
-                    // whatever the work buffers held and is specified by no property
-                    probe("c08_both_numerical_error_not_compared");
+                    // both runs gave up (NumericalError / InsufficientProgress are not verdict
+                    // classes); where and with what garbage iterate a failing run gives up
+                    // depends on leftover state of earlier solves and is specified by no property
+                    probe("c08_both_failed_not_compared");
                 } else if !equil && !infinite_b {
                     // (4) bitwise
                     if let Some(d) = snap.diff_numeric(&fsnap) {
